@@ -177,7 +177,11 @@ def showPayload : Payload → String
 def showEntry (s : Mgr) (ci : Content × Nid) : String :=
   let (c, i) := ci
   toString i ++ ";" ++ toString c.nodeType ++ ";" ++ ",".intercalate (c.args.map toString) ++ ";" ++
-    showPayload c.payload ++ ";" ++ (match s.bvWidth i with | some w => toString w | none => "-")
+    showPayload c.payload ++ ";" ++ (match s.bvWidth i with | some w => toString w | none => "-") ++
+    (match c.payload with
+     | .bv v w => if c.nodeType = NT.BV_CONSTANT then
+         ";" ++ toString (bvSignedValue v w) ++ ";" ++ String.ofList (bvBinStr v w) else ""
+     | _ => "")
 
 def showTable (s : Mgr) : String :=
   " ".intercalate (s.formulae.reverse.map (showEntry s)) ++
